@@ -312,7 +312,8 @@ def compression_stages(ctx, dist):
     rep = ctx["rep"]
     rnd = random.Random(ctx["seed"] + 7)
     h = os.path.join(ctx["bdir"], "h")
-    datas = [b"", b"a", b"abc" * 200, bytes(rnd.getrandbits(8) for _ in range(3000)), (b"compressible " * 1600)[:20000]]
+    datas = [b"", b"a", b"abc" * 200, bytes(rnd.getrandbits(8) for _ in range(3000)), (b"compressible " * 1600)[:20000],
+             (b"the stage's own buffer holds 4096 octets; " * 120)[:4096], bytes(rnd.getrandbits(3) for _ in range(9000))]
     if ctx["tier"] != "quick":
         datas += [bytes(rnd.getrandbits(8) for _ in range(70000)), b"z" * 300000]
 
@@ -320,6 +321,8 @@ def compression_stages(ctx, dist):
         out = ["-" if n == 0 else str(n)]
         if n > 1:
             out += [",".join(["1"] * n) if n <= 64 else ",".join(str(x) for x in rand_chunks(rnd, n, 30)), ",".join(str(x) for x in rand_chunks(rnd, n, 5)), "%d,%d" % (1, n - 1)]
+        if n > 4096:
+            out += ["4096,%d" % (n - 4096), "4095,%d" % (n - 4095), "100,%d" % (n - 100)]
         return out
     first = ["chain\tdef(malloc)\t%s\t%s" % (c, hx(d)) for d in datas for c in chunkings(len(d))]
     fo = vlib.run_cases(h, first)
@@ -339,7 +342,9 @@ def compression_stages(ctx, dist):
             ok = False
         if not ok:
             rep.violation("deflate-stream-wrong", "what def(malloc) fed as %s delivers does not inflate to the input" % f[2], {"case": c[:400], "implementation": o[:200]})
-        comp.setdefault(f[3], z)
+        if comp.setdefault(f[3], z) != z:
+            rep.violation("deflate-output-depends-on-chunking", "def(malloc) delivers other bytes (%d) for the feeds %s than for one feed of everything (%d): what goes downstream must depend on the concatenation only"
+                          % (len(z), f[2][:40], len(comp[f[3]])), {"case": c[:400], "implementation": o[:200]})
     second, want = [], {}
 
     def add(shape, chunks, data, verdict, content=None, what=""):
@@ -386,6 +391,79 @@ def compression_stages(ctx, dist):
     return n + len(second)
 
 
+def jwe_stream_producer(ctx, dist):
+    """the streaming content encryptor (jose_jwe_enc_io), with and without the deflate stage in front, fed the plaintext
+    in arbitrary chunks: the product decrypts (one-shot jose_jwe_dec, and the Gallina decryptor for symmetric wraps) to
+    exactly the plaintext, whatever the chunking"""
+    import json
+    import jwsgen as G
+    rep = ctx["rep"]
+    rnd = random.Random(ctx["seed"] + 11)
+    bdir = ctx["bdir"]
+    keys = G.standard_keys(bdir)
+    quick = ctx["tier"] == "quick"
+    lens = [0, 1, 15, 16, 17, 31, 32, 33, 47, 48, 64, 100, 255, 256, 1000, 4095, 4096, 4097]
+    wraps = ["dir", "A128KW"] + [w for w in ("ECDH-ES", "RSA-OAEP") if G.wrap_key(rnd, keys, w, "A128GCM") is not None]
+    req, meta = [], []
+    nper = 3 if quick else 12
+    for enc in G.ENC_KEYLEN:
+        for zip_ in (False, True):
+            for _ in range(nper):
+                wrap = rnd.choice(wraps if not quick else wraps[:2] * 3 + wraps[2:])
+                key = G.wrap_key(rnd, keys, wrap, enc)
+                if key is None:
+                    continue
+                n = rnd.choice(lens + [rnd.randrange(0, 6000)])
+                pt = bytes(rnd.getrandbits(8) for _ in range(n)) if rnd.random() < 0.5 else (b"stream me " * (n // 10 + 1))[:n]
+                aad = rnd.choice([None, None, "YWFk"])
+                tmpl = G.jwe_template(wrap, enc, zip_, aad, where=rnd.choice(["protected", "split"]))
+                forms = ["-" if n == 0 else str(n), "-"]
+                if n > 1:
+                    forms += [",".join(["1"] * n) if n <= 300 else ",".join(str(x) for x in rand_chunks(rnd, n, 40)),
+                              ",".join(str(x) for x in rand_chunks(rnd, n, 4)), "1,%d" % (n - 1), "%d,1" % (n - 1), "0,%d,0" % n]
+                    for blk in (16, 48, 64, 4096):
+                        if n > blk:
+                            forms.append("%d,%d" % (blk, n - blk))
+                            forms.append("%d,1,%d" % (blk - 1, n - blk))
+                for ch in (forms if not quick else rnd.sample(forms, min(len(forms), 4))):
+                    req.append("jweencio\t%s\t-\t%s\t%s\t%s" % (G.dumps(tmpl), G.dumps(key), ch, pt.hex() or "-"))
+                    meta.append((wrap, enc, zip_, key, pt, ch))
+    outs = G.harness(bdir, req)
+    dreq, dmeta = [], []
+    for c, o, m in zip(req, outs, meta):
+        wrap, enc, zip_, key, pt, ch = m
+        if o.startswith("CRASH"):
+            rep.violation("crash:jwe-enc-io:" + o[:60], "crash in the streaming encryptor: " + o[:200], {"case": c[:3000]})
+            continue
+        if o == "ERR":
+            rep.violation("stream-enc:fails:%s:%s" % (enc, "zip" if zip_ else "plain"), "jose_jwe_enc_io fails for %s/%s zip=%s with %d octets fed as %s" % (wrap, enc, zip_, len(pt), ch[:40]), {"case": c[:3000]})
+            continue
+        dreq.append("jwedec\t%s\t-\t%s" % (o, G.dumps(key)))
+        dmeta.append((c, m))
+    douts = G.harness(bdir, dreq)
+    sym = []
+    for d, o, (c, m) in zip(dreq, douts, dmeta):
+        wrap, enc, zip_, key, pt, ch = m
+        if o != "OK " + (pt.hex() or "-"):
+            rep.violation("stream-enc:product-wrong:%s:%s" % (enc, "zip" if zip_ else "plain"),
+                          "the JWE made by jose_jwe_enc_io (%s/%s zip=%s, %d octets fed as %s) does not decrypt to the plaintext: %s" % (wrap, enc, zip_, len(pt), ch[:40], o[:60]),
+                          {"case": c[:3000], "decrypt": d[:3000], "implementation": o[:300]})
+        elif wrap in ("dir", "A128KW") and len(pt) <= 1100:
+            sym.append((d, "OK " + (pt.hex() or "-"), c))
+    nmodel = 0
+    if ctx.get("driver") and sym:
+        sym = sym if not quick else sym[:60]
+        mo = vlib.run_cases(ctx["driver"], [x[0] for x in sym])
+        nmodel = len(sym)
+        for (d, want, c), o in zip(sym, mo):
+            if o != want:
+                rep.violation("stream-enc:product-not-rfc7516", "the JWE made by jose_jwe_enc_io is not decrypted to the plaintext by the independent implementation: " + o[:60],
+                              {"case": c[:3000], "decrypt": d[:3000], "model": o[:300]})
+    dist["streaming encryptor products (chunked plaintext, with and without zip) decrypted"] = len(req)
+    dist["... of which also decrypted by the Gallina model"] = nmodel
+    return len(req) + len(dreq) + nmodel
+
+
 def nontrivial(case, out):
     f = case.split("\t")
     return f[3] != "-" and f[2] != "-"
@@ -408,6 +486,7 @@ def correspond(ctx):
         ALONE[a] = o
     dist["multiplexer branches also run on their own"] = len(alone)
     ncomp = compression_stages(ctx, dist)
+    ncomp += jwe_stream_producer(ctx, dist)
     st = runner.standard(
         ctx, cases, Oracle(), nontrivial,
         rule="chain shapes from the public constructors (+ a harness fault-injecting sink) x data x compositions of the length into feed sizes; non-trivial = non-empty data and at least one feed; distinct = distinct case lines",
